@@ -10,7 +10,11 @@ package main
 import (
 	"fmt"
 	"go/ast"
+	"go/parser"
 	"go/token"
+	"os"
+	"path/filepath"
+	"sort"
 	"strings"
 )
 
@@ -25,6 +29,27 @@ type c19walk struct {
 	keepVar string
 	file    *ast.File
 	done    bool
+	errEff  []string // effectful calls inside the `if err != nil { ... }` abort branches other than <temp fd>.Close()
+}
+
+// errBranch records every call inside an abort branch that is neither pure
+// nor a Close of the temp file descriptor (closures included).
+func (w *c19walk) errBranch(b *ast.BlockStmt) {
+	ast.Inspect(b, func(n ast.Node) bool {
+		c, ok := n.(*ast.CallExpr)
+		if !ok {
+			return true
+		}
+		f := exprText(c.Fun)
+		if c19Pure[f] || f == "ctx.Err" {
+			return true
+		}
+		if sel, ok := c.Fun.(*ast.SelectorExpr); ok && sel.Sel.Name == "Close" && len(c.Args) == 0 && w.sym(sel.X) == "TMPFD" {
+			return true
+		}
+		w.errEff = append(w.errEff, exprText(c))
+		return true
+	})
 }
 
 func (w *c19walk) sym(e ast.Expr) string {
@@ -248,6 +273,7 @@ func (w *c19walk) stmt(s ast.Stmt) error {
 			if !c19EndsInReturn(x.Body) {
 				return fmt.Errorf("error branch does not return")
 			}
+			w.errBranch(x.Body)
 			return nil
 		case cond == w.recv+".afterTempWrite!=nil":
 			for _, b := range x.Body.List {
@@ -343,6 +369,75 @@ func c19CheckSyncDir(f *ast.File) error {
 	return fmt.Errorf("syncDir does not return the Sync error")
 }
 
+// c19Mutating says whether a call can change the file system: every os.* function
+// outside a read-only allow-list, every call into ioutil/syscall/unix/exec, the
+// writer helpers of fmt/io, and every method named like a writer.
+func c19Mutating(c *ast.CallExpr) bool {
+	f := exprText(c.Fun)
+	ro := map[string]bool{"os.ReadFile": true, "os.Open": true, "os.Stat": true, "os.Lstat": true, "os.ReadDir": true,
+		"os.Getenv": true, "os.LookupEnv": true, "os.IsNotExist": true, "os.IsExist": true, "os.IsPermission": true,
+		"os.Getwd": true, "os.Getpid": true, "os.Hostname": true, "os.Readlink": true, "os.FileMode": true, "os.DirFS": true}
+	if strings.HasPrefix(f, "os.") {
+		return !ro[f]
+	}
+	for _, p := range []string{"ioutil.", "syscall.", "unix.", "exec.", "fmt.Fprint", "io.Copy", "io.WriteString"} {
+		if strings.HasPrefix(f, p) {
+			return true
+		}
+	}
+	if sel, ok := c.Fun.(*ast.SelectorExpr); ok {
+		switch sel.Sel.Name {
+		case "Write", "WriteString", "WriteAt", "WriteTo", "ReadFrom", "Truncate", "Chmod", "Chown", "Remove", "RemoveAll", "Rename":
+			return true
+		}
+	}
+	return false
+}
+
+// c19Mutators lists (function, call) for every file-system mutating call in
+// every non-test Go file of the statefile package (any build tag).
+func c19Mutators(repo string) ([][2]string, error) {
+	dir := filepath.Join(repo, "pkg/controller/statefile")
+	ents, err := os.ReadDir(dir)
+	if err != nil {
+		return nil, err
+	}
+	var names []string
+	for _, e := range ents {
+		if !e.IsDir() && strings.HasSuffix(e.Name(), ".go") && !strings.HasSuffix(e.Name(), "_test.go") {
+			names = append(names, e.Name())
+		}
+	}
+	sort.Strings(names)
+	var out [][2]string
+	for _, n := range names {
+		f, err := parser.ParseFile(token.NewFileSet(), filepath.Join(dir, n), nil, 0)
+		if err != nil {
+			return nil, err
+		}
+		for _, d := range f.Decls {
+			owner := "<package-level " + n + ">"
+			if fd, ok := d.(*ast.FuncDecl); ok {
+				owner = fd.Name.Name
+				if fd.Recv != nil && len(fd.Recv.List) == 1 {
+					t := fd.Recv.List[0].Type
+					if st, ok := t.(*ast.StarExpr); ok {
+						t = st.X
+					}
+					owner = exprText(t) + "." + owner
+				}
+			}
+			ast.Inspect(d, func(x ast.Node) bool {
+				if c, ok := x.(*ast.CallExpr); ok && c19Mutating(c) {
+					out = append(out, [2]string{owner, exprText(c.Fun)})
+				}
+				return true
+			})
+		}
+	}
+	return out, nil
+}
+
 func extractC19(repo string) (string, error) {
 	_, f, err := parseFile(repo, "pkg/controller/statefile/store.go")
 	if err != nil {
@@ -412,6 +507,26 @@ func extractC19(repo string) (string, error) {
 	b.WriteString("]\n\n")
 	fmt.Fprintf(&b, "/-- `defer func() { if !keepTemp { _ = os.Remove(tmpPath) } }()` is present -/\ndef deferredRemove : Bool := %v\n\n", w.defRm)
 	fmt.Fprintf(&b, "/-- `Load` reads `s.path`, passes exactly those bytes to `state.Decode`, returns on its error, and returns the decoded state -/\ndef loadDecodesPath : Bool := %v\n\n", stVar != "" && decodeChecked && returnsDecoded)
+	muts, err := c19Mutators(repo)
+	if err != nil {
+		return "", err
+	}
+	b.WriteString("/-- (function, callee) of EVERY call that can change the file system in the non-test files of pkg/controller/statefile -/\ndef fsMutators : List (String × String) := [")
+	for i, m := range muts {
+		if i > 0 {
+			b.WriteString(", ")
+		}
+		fmt.Fprintf(&b, "(%s, %s)", leanStr(m[0]), leanStr(m[1]))
+	}
+	b.WriteString("]\n\n")
+	b.WriteString("/-- effectful calls inside the `if err != nil { … return … }` abort branches of `Save`, other than `<temp fd>.Close()` -/\ndef errBranchEffects : List String := [")
+	for i, m := range w.errEff {
+		if i > 0 {
+			b.WriteString(", ")
+		}
+		b.WriteString(leanStr(m))
+	}
+	b.WriteString("]\n\n")
 	b.WriteString("end WK.Gen.C19\n")
 	return b.String(), nil
 }
